@@ -1,6 +1,6 @@
 (* C19 -- the fault-log view.  Statements only. *)
 From Coq Require Import ZArith List Bool Lia.
-From RV Require Import GenConsts M_Faultlog P_Faultlog.
+From RV Require Import GenConsts M_Faultlog P_Faultlog P_FaultlogDepth.
 Import ListNotations.
 Open Scope Z_scope.
 
@@ -29,6 +29,22 @@ Theorem C19_announcement_pushes_down_partial : forall l d,
   (forall v, In v l -> v < d) -> Z.of_nat (length l) <= MAXIDX ->
   insert_into_map (pmap 0 l) 0 (Some d) = (0, d) :: pmap 1 l.
 Proof. exact announce_pushes_down. Qed.
+
+(* ---- against a controller log of the property's depth: 64 slots, 00..3F (LOG_DEPTH is the
+   property's constant; MAXIDX is regenerated from FaultLog._MAX_LOG_IDX on every run) ---- *)
+Theorem C19_cutoff_is_last_slot : MAXIDX + 1 = LOG_DEPTH.
+Proof. exact cutoff_is_last_slot. Qed.
+
+(* whatever is heard, in any order, with any losses: no entry at an index the log does not have *)
+Theorem C19_view_within_log : forall evs, (forall e, In e evs -> idx_of e < LOG_DEPTH) ->
+  forall k, In k (keys (fl_map (run evs finit))) -> k < LOG_DEPTH.
+Proof. exact view_within_log. Qed.
+
+(* push-down at full strength for a completely known log of ANY length up to the full depth: the
+   view equals the controller's new log; only the entry that was in the last slot drops off *)
+Theorem C19_announcement_at_full_depth : forall l d, (forall v, In v l -> v < d) ->
+  insert_into_map (pmap 0 l) 0 (Some d) = pmap 0 (firstn (Z.to_nat LOG_DEPTH) (d :: l)).
+Proof. exact announce_at_full_depth. Qed.
 
 (* the full statements are false of the code (witnesses replayed on the implementation) *)
 Theorem C19_no_duplicates_refuted : exists ops, no_dup_values (fl_map (snd (crun ops))) = false.
